@@ -17,7 +17,6 @@
 package c17
 
 import (
-	"bytes"
 	"context"
 	"crypto/aes"
 	"crypto/cipher"
@@ -28,7 +27,6 @@ import (
 	"os"
 	"path/filepath"
 	"runtime"
-	"runtime/pprof"
 	"sort"
 	"strconv"
 	"strings"
@@ -424,27 +422,33 @@ var raceSaved atomic.Int32
 
 // ---- goroutine inspection
 
-// goroutinesIn counts goroutines that have a frame whose function name contains needle.
-func goroutinesIn(needle string) int {
-	var buf bytes.Buffer
-	_ = pprof.Lookup("goroutine").WriteTo(&buf, 1)
+// walletGoroutines counts the goroutines that belong to the wallet: a frame in, or "created by" a function of,
+// pkg/fswallet - whatever the function is called - and no frame of this harness (a harness goroutine inside a
+// wallet call is not the wallet's).  Goroutines parked in a receive or a select are idle workers, not work in
+// progress, and are not counted: the listener channels are being drained, so a send cannot stay parked.
+func walletGoroutines() int {
+	buf := make([]byte, 1<<20)
+	for {
+		n := runtime.Stack(buf, true)
+		if n < len(buf) {
+			buf = buf[:n]
+			break
+		}
+		buf = make([]byte, 2*len(buf))
+	}
 	n := 0
-	for _, blk := range strings.Split(buf.String(), "\n\n") {
-		if !strings.Contains(blk, needle) {
+	for _, blk := range strings.Split(string(buf), "\n\n") {
+		if !strings.Contains(blk, "firefly-signer/pkg/fswallet.") || strings.Contains(blk, "verifharness/") {
 			continue
 		}
-		// header: "<count> @ 0x… 0x…"
-		c := 1
-		if i := strings.Index(blk, " @"); i > 0 {
-			head := blk[:i] // "<count>", possibly preceded by the profile's title line
-			if j := strings.LastIndexByte(head, '\n'); j >= 0 {
-				head = head[j+1:]
-			}
-			if v, err := strconv.Atoi(strings.TrimSpace(head)); err == nil {
-				c = v
-			}
+		head := blk
+		if i := strings.IndexByte(blk, '\n'); i >= 0 {
+			head = blk[:i]
 		}
-		n += c
+		if strings.Contains(head, "[chan receive") || strings.Contains(head, "[select") {
+			continue
+		}
+		n++
 	}
 	return n
 }
@@ -508,23 +512,38 @@ type listener struct {
 	looked   bool                     // GetAccounts was called right after AddListener returned ...
 	seen     []*ethtypes.Address0xHex // ... and answered this
 	got      []string                 // written by the drainer only; read after the drainer has stopped
+	mu       sync.Mutex
+	cnt      map[string]int // the same, countable while the drainer runs
 	stop     chan struct{}
 	done     chan struct{}
 }
 
+func (l *listener) received(h string) int {
+	l.mu.Lock()
+	defer l.mu.Unlock()
+	return l.cnt[h]
+}
+
 func newListener(id, capacity int) *listener {
-	l := &listener{id: id, ch: make(chan ethtypes.Address0xHex, capacity), stop: make(chan struct{}), done: make(chan struct{})}
+	l := &listener{id: id, ch: make(chan ethtypes.Address0xHex, capacity), stop: make(chan struct{}), done: make(chan struct{}), cnt: map[string]int{}}
+	take := func(a ethtypes.Address0xHex) {
+		h := hex.EncodeToString(a[:])
+		l.got = append(l.got, h)
+		l.mu.Lock()
+		l.cnt[h]++
+		l.mu.Unlock()
+	}
 	go func() {
 		defer close(l.done)
 		for {
 			select {
 			case a := <-l.ch:
-				l.got = append(l.got, hex.EncodeToString(a[:]))
+				take(a)
 			case <-l.stop:
 				for {
 					select {
 					case a := <-l.ch:
-						l.got = append(l.got, hex.EncodeToString(a[:]))
+						take(a)
 					default:
 						return
 					}
@@ -838,7 +857,7 @@ func judgeProgram(c ProgramCase) (vs []evid.Violation) {
 		conf.Metadata.PasswordFileProperty = `{{ index .signing "password-file" }}`
 	}
 	ctx := context.Background()
-	baseDispatch := goroutinesIn("fswallet.(*fsWallet).notifyNewFiles")
+	baseDispatch := walletGoroutines()
 	baseInotify := inotifyFDs()
 
 	var all []*listener
@@ -1270,8 +1289,43 @@ func judgeProgram(c ProgramCase) (vs []evid.Violation) {
 	}) {
 		return vs
 	}
-	// every notification goroutine the wallet started has to finish (the listener channels are drained)
-	if !waitFor(func() bool { emptyStorm(); return goroutinesIn("fswallet.(*fsWallet).notifyNewFiles") <= baseDispatch }) {
+	// Quiescence, without relying on how the wallet organises its dispatch.  (1) The notifications the oracle
+	// below will demand are known already: wait for each of them (bounded by the liveness limit; what has not
+	// arrived by then is reported by the oracle as not received).  (2) Then every goroutine the wallet started
+	// has to finish or park (the listener channels are being drained), so that a duplicate still on its way
+	// is seen too.
+	{
+		finalNow, _ := accountSet()
+		type pair struct {
+			l *listener
+			h string
+		}
+		var expect []pair
+		for _, l := range all {
+			var listedThen map[string]bool
+			if l.looked {
+				listedThen = map[string]bool{}
+				for _, a := range l.seen {
+					if a != nil {
+						listedThen[hex.EncodeToString(a[:])] = true
+					}
+				}
+			}
+			for h := range created {
+				if l.seqAfter < firstSeq[h] || (l.seqAfter == 0 && firstSeq[h] == 0) || (l.looked && !listedThen[h] && finalNow[h] > 0) {
+					expect = append(expect, pair{l, h})
+				}
+			}
+		}
+		waitFor(func() bool {
+			emptyStorm()
+			for len(expect) > 0 && expect[len(expect)-1].l.received(expect[len(expect)-1].h) > 0 {
+				expect = expect[:len(expect)-1]
+			}
+			return len(expect) == 0
+		})
+	}
+	if !waitFor(func() bool { emptyStorm(); return walletGoroutines() <= baseDispatch }) {
 		p := dumpGoroutines("stuck")
 		vs = append(vs, evid.V("liveness", "notification dispatch still running %s after the last operation although every listener channel is being drained\ngoroutine dump: %s", liveness, p))
 		return vs
